@@ -12,8 +12,8 @@ META = {
              "runOps_shape that needs no hypothesis on the data) and the explorer lists the file under exactly that name iff it has three "
              "'/'-separated parts (scan_v3); for every legacy version-2 file whose first entry is the __swamp_meta__ entry, also after "
              "any appending by the current writer, the fallback returns that name (name_roundtrip_v2_fallback). longName_truncates / "
-             "not_holds_of_acceptsLongName: a 65536-byte name reads back empty; not_holds_of_noFallback. Compaction (C03's model) is "
-             "not covered by these theorems."),
+             "not_holds_of_acceptsLongName: a 65536-byte name reads back empty; not_holds_of_noFallback. compaction_keeps_name / "
+             "compacted_v3 / compacted_v2: compaction (modelled on the same writer) yields a V3 file answering the same name."),
     "note": ("Trusted: Lean kernel; extract/c29.go; harness/c29.go; os.File as a byte string; snappy/CRC-32 parameters (executable copies "
              "differential-tested). Directory walking (filepath.WalkDir, worker pool) of the explorer is exercised, not modelled: the "
              "model decides per file. Files rewritten by compaction are outside this check (C03)."),
@@ -26,7 +26,7 @@ FINDINGS = {
     "C29-name-mismatch": "ReadSwampName returns a name other than the one the file was written under",
 }
 
-ENGINE = {"v3", "v3app", "v3open", "v2", "v2app", "v2resv"}
+ENGINE = {"v3", "v3app", "v3open", "v2", "v2app", "v2resv", "v3cmp", "v2cmp"}
 
 
 def oracle(ops, impl):
@@ -114,7 +114,7 @@ def run(ctx):
     return K.finish(
         ctx, "proof",
         rule=("directories = corpus (names of 65535/65536/65537/70000 bytes, one V3, one legacy V2) + random cases of 1..14 files: V3 fresh / "
-              "appended over 1..3 further sessions / snapshot while the writer is open / without a name; legacy V2 synthesised as the old "
+              "appended over 1..3 further sessions / snapshot while the writer is open / without a name / rewritten by the real Compactor; legacy V2 synthesised as the old "
               "writer laid it out, appended to by the current writer, with non-zero reserved bytes 44..45, without metadata entry; names: "
               "UTF-8, binary, 0..6 slashes, 1..65535 bytes; each directory is scanned by the real explorer; every `f` line is "
               "non-trivial; distinct = distinct file bytes"),
